@@ -725,6 +725,14 @@ def run_evolve(case, ctx):
 
     # step in the differenced parameter: natural scale / (phase winding over the horizon)
     wind = 1.0 + TWO_PI * norb
+    # conditioning of the flow with respect to a displacement of the base point: a position error d at pericentre is
+    # an error 2d/(a(1-e)^2) in a, i.e. a phase error 3*pi*norbits times that after the horizon, which moves the
+    # particle by up to a*sqrt((1+e)/(1-e)) per unit of mean anomaly.  (Measured: e=0.75, one orbit: the 2.3e-9
+    # error of the constructor's starting vector - f recovered as 5.77e-8 instead of 5.96e-8 by the acos in
+    # reb_orbit_from_particle - grows to 8.7e-7, a factor 380; this bound gives 800.  For e -> 0 it reduces to the
+    # phase winding used before.)
+    emax = max(pl["e"] for pl in sysd["planets"])
+    shear = 1.0 + TWO_PI * norb * math.sqrt((1.0 + emax) / (1.0 - emax)) / (1.0 - emax) ** 2
     if order == 1:
         dpar, dj = p, j
     else:
@@ -790,7 +798,7 @@ def run_evolve(case, ctx):
     dinv = 0.0
     if order == 2:
         # each shadow initialises its first-order variation from elements recovered with that accuracy
-        dinv = max(dbase, dsh[0]) * wind * state_mag
+        dinv = max(dbase, dsh[0]) * shear * state_mag
         ctx.stat_max("delta_shadow", dsh[0])
     # regime guard: the difference quotient is meaningful only while the shadows stay in the linear neighbourhood
     # of the base trajectory (a chaotic / numerically unstable base, e.g. LEAPFROG through a deep pericentre, is
@@ -812,7 +820,7 @@ def run_evolve(case, ctx):
         Rn = max(R, snorm(real_state(sim, nreal), base) / sc)
     else:
         Rn = max(R, snorm(V1, base) * snorm(V1b, base))
-    base_term = K_BASE * dbase * wind * Rn
+    base_term = K_BASE * dbase * shear * Rn
     rnd_term = (K_RND_EV * 1.5 * delta + K_INV * dinv) / h
     tol = Efd + rnd_term + kint * Rn + base_term
     ratio = err / tol if tol > 0 else 0.0
